@@ -17,8 +17,8 @@ Section Layout.
     | FField fs => encode_field fs st v
     | FStr cap lb => encode_str cap lb st v
     | FUtf8 => encode_utf8 st v
-    | FBias1059 => cb_encode ssr59 63 6 st v
-    | FBias1065 => cb_encode ssr65 31 5 st v
+    | FBias1059 => cb_encode ssr59 63 6 cap59 st v
+    | FBias1065 => cb_encode ssr65 31 5 cap65 st v
     | FBias1230 => b1230_encode (sigt G_glo) st v
     | FStruct fields =>
         match v with
